@@ -195,6 +195,57 @@ Qed.
 Lemma in_dom_assoc kvs k x : in_dom (JObj kvs) = true -> assoc k kvs = Some x -> in_dom x = true.
 Proof. intros H E. apply assoc_In in E. apply (in_dom_obj kvs (k, x) H E). Qed.
 
+Lemma assoc_remove_key {X} k tg (kvs : list (ustring * X)) :
+  ustr_eqb tg k = false -> assoc k (remove_key tg kvs) = assoc k kvs.
+Proof.
+  intros Hne. induction kvs as [|[k' x] r IH]; [reflexivity|]. simpl.
+  destruct (ustr_eqb tg k') eqn:E.
+  - apply ustr_eqb_eq in E. subst k'. rewrite (ustr_eqb_sym k tg), Hne. exact IH.
+  - simpl. rewrite IH. reflexivity.
+Qed.
+
+Lemma In_remove_key {X} tg (kvs : list (ustring * X)) kv :
+  In kv (remove_key tg kvs) -> In kv kvs /\ ustr_eqb tg (fst kv) = false.
+Proof.
+  induction kvs as [|[k' x] r IH]; [intros []|]. simpl.
+  destruct (ustr_eqb tg k') eqn:E.
+  - intros H. destruct (IH H) as [H1 H2]. split; [right; exact H1 | exact H2].
+  - intros [H|H].
+    + subst kv. split; [left; reflexivity | exact E].
+    + destruct (IH H) as [H1 H2]. split; [right; exact H1 | exact H2].
+Qed.
+
+Lemma remove_key_all {X} tg (kvs : list (ustring * X)) :
+  (forall kv, In kv kvs -> fst kv = tg) -> remove_key tg kvs = [].
+Proof.
+  induction kvs as [|[k x] r IH]; intros H; [reflexivity|]. simpl.
+  assert (E := H (k, x) (or_introl eq_refl)). simpl in E. subst k. rewrite ustr_eqb_refl.
+  apply IH. intros kv Hin. apply H. right. exact Hin.
+Qed.
+
+Lemma nodup_remove_key {X} tg (kvs : list (ustring * X)) :
+  nodup_ustr (map fst kvs) = true -> nodup_ustr (map fst (remove_key tg kvs)) = true.
+Proof.
+  induction kvs as [|[k x] r IH]; [reflexivity|]. simpl. intros H.
+  apply andb_true_iff in H. destruct H as [H1 H2].
+  destruct (ustr_eqb tg k); [apply IH; exact H2|]. simpl. rewrite (IH H2), andb_true_r.
+  apply negb_true_iff. apply negb_true_iff in H1.
+  destruct (mem_ustr k (map fst (remove_key tg r))) eqn:E; [|reflexivity].
+  apply mem_ustr_In in E. apply in_map_iff in E. destruct E as [kv [E Hin]].
+  apply In_remove_key in Hin. destruct Hin as [Hin _].
+  assert (Hm : mem_ustr k (map fst r) = true).
+  { apply mem_ustr_In. apply in_map_iff. exists kv. split; assumption. }
+  congruence.
+Qed.
+
+Lemma in_dom_remove_key tg kvs : in_dom (JObj kvs) = true -> in_dom (JObj (remove_key tg kvs)) = true.
+Proof.
+  simpl. intros H. apply andb_true_iff in H. destruct H as [H1 H2].
+  rewrite (nodup_remove_key tg kvs H1). simpl.
+  apply forallb_forall. intros kv Hin. apply In_remove_key in Hin. destruct Hin as [Hin _].
+  apply (proj1 (forallb_forall _ _) H2 kv Hin).
+Qed.
+
 (* ------------------------------------------------------------------ properties / wire names *)
 Lemma wire_names_cons q ps :
   wire_names (q :: ps) = match wire_name q with Some w => w :: wire_names ps | None => wire_names ps end.
@@ -457,35 +508,40 @@ Section Sound.
       - exists (S FT). apply accepts_any_sound. exact Hc.
     Qed.
 
-    Lemma props_ok_wire props req ps k :
-      props_ok re_match native_ok T cov props req ps = true ->
-      has_key k props = true -> mem_ustr k (wire_names ps) = true.
+    Lemma props_ok_wire props req skip ps k :
+      props_ok re_match native_ok T cov props req skip ps = true ->
+      has_key k props = true -> is_skip skip k = false -> mem_ustr k (wire_names ps) = true.
     Proof.
-      unfold props_ok. intros H Hk. apply has_key_true in Hk. destruct Hk as [sp Hk].
+      unfold props_ok. intros H Hk Hs. apply has_key_true in Hk. destruct Hk as [sp Hk].
       apply assoc_In in Hk. apply (proj1 (forallb_forall _ _) H) in Hk. simpl in Hk.
+      rewrite Hs in Hk. simpl in Hk.
       destruct (find_prop_by_wire k ps) as [p|] eqn:E; [|discriminate].
       apply find_prop_by_wire_some in E. destruct E as [E1 E2].
       apply mem_ustr_In. eapply wire_names_In; eassumption.
     Qed.
 
-    (* objects -> structs *)
-    Lemma struct_sound ty fmt enum cst nv sv ik items ai mni mxi uq props req ap mnp mxp allo anyo oneo no dflt title
-          nn ps deny v :
+    (* objects -> struct bodies.  [kvs] is the object the struct body sees: the
+       instance itself, or the instance without the tag member [skip] *)
+    Lemma struct_obj_sound props req ap skip ps deny kvs :
       Forall (fun kv => Pcov cov n (snd kv)) props -> OForall (Pcov cov n) ap ->
-      struct_case re_match native_ok T cov ty props req ap nn ps deny = true ->
-      in_dom v = true -> (nn = true -> v <> JNull) ->
-      vx n (SObj ty fmt enum cst nv sv ik items ai mni mxi uq props req ap mnp mxp allo anyo oneo no None dflt title) v = true ->
-      exists f, de_struct_body T (de f) (dv f) ps deny v <> None.
+      nodup_ustr (wire_names ps) = true ->
+      (forall w, In w (wire_names ps) -> is_skip skip w = false) ->
+      props_ok re_match native_ok T cov props req skip ps = true ->
+      forallb (fun p => match wire_name p with None => true | Some w => has_key w props end) ps = true ->
+      match flat_map_value T ps with
+      | None => false
+      | Some None => negb deny || match ap with Some (SBool false) => true | _ => false end
+      | Some (Some vt) => negb deny && addl_ok T cov ap vt
+      end = true ->
+      in_dom (JObj kvs) = true ->
+      (forall k s x, In (k, s) props -> is_skip skip k = false -> assoc k kvs = Some x -> vx n s x = true) ->
+      (forall a, ap = Some a -> forall kv, In kv kvs -> has_key (fst kv) props = false ->
+                                           vx n a (snd kv) = true) ->
+      (forall k, In k req -> is_skip skip k = false -> has_key k kvs = true) ->
+      (forall kv, In kv kvs -> is_skip skip (fst kv) = false) ->
+      exists f, de_struct_obj T (de f) (dv f) ps deny kvs <> None.
     Proof.
-      intros Hprops Hap Hc Hd Hnn Hv.
-      apply vx_parts in Hv.
-      destruct Hv as (Hty & _ & _ & _ & _ & _ & Hol & _ & Hobj & _ & _).
-      unfold struct_case in Hc. rewrite !andb_true_iff in Hc.
-      destruct Hc as [[[[H1 H2] H3] H4] H5].
-      destruct (ty_is_sound _ _ _ _ _ H1 Hty Hnn) as [t [Ht Hok]].
-      destruct Ht as [<-|[]]. destruct v as [| | | | | |kvs]; try discriminate. clear Hok.
-      specialize (Hobj kvs eq_refl). apply valid_obj_parts in Hobj. destruct Hobj as [Hp Ha].
-      unfold valid_obj_local in Hol. rewrite !andb_true_iff in Hol. destruct Hol as [[Hreq _] _].
+      intros Hprops Hap H2 Hsw H3 H4 H5 Hd Hp Ha Hreq Hns.
       (* named members *)
       assert (HA : exists f, de_named T (de f) (dv f) ps kvs <> None).
       { assert (HA : exists f, forall p, In p ps -> forall w, wire_name p = Some w ->
@@ -495,9 +551,11 @@ Section Sound.
           { intros f f' p Hle H w Hw. eapply member_val_mono; [exact Hle | apply H; exact Hw]. }
           intros p Hin.
           destruct (wire_name p) as [w|] eqn:Ew; [|exists 0; intros w Hw; discriminate].
+          assert (Hws : is_skip skip w = false) by (apply Hsw; eapply wire_names_In; eassumption).
           assert (Hk := proj1 (forallb_forall _ _) H4 p Hin). simpl in Hk. rewrite Ew in Hk.
           apply has_key_true in Hk. destruct Hk as [sp Hk]. apply assoc_In in Hk.
           assert (Hc := proj1 (forallb_forall _ _) H3 (w, sp) Hk). simpl in Hc.
+          rewrite Hws in Hc. simpl in Hc.
           rewrite (nodup_find ps p w H2 Hin Ew) in Hc. apply andb_true_iff in Hc. destruct Hc as [Hc1 Hc2].
           assert (HP : Pcov cov n sp) by (apply (proj1 (Forall_forall _ _) Hprops (w, sp) Hk)).
           unfold member_val. destruct (assoc w kvs) as [j|] eqn:Ea.
@@ -506,22 +564,23 @@ Section Sound.
             + eapply Hp; eassumption.
             + exists f. intros w' Hw'. inversion Hw'. subst w'. rewrite Ea. exact Hf.
           - apply orb_true_iff in Hc2. destruct Hc2 as [Hc2|Hc2].
-            + apply mem_ustr_In in Hc2. apply (proj1 (forallb_forall _ _) Hreq) in Hc2.
+            + apply mem_ustr_In in Hc2. apply Hreq in Hc2; [|exact Hws].
               apply has_key_true in Hc2. destruct Hc2 as [x Hx]. congruence.
             + exists DFUEL. intros w' Hw'. inversion Hw'. subst w'. rewrite Ea.
               unfold missing_ok, is_some in Hc2.
               destruct (missing T (de DFUEL) (dv DFUEL) p); congruence. }
         destruct HA as [f HA]. exists f. apply de_named_ok. intros p w Hin Hw. apply HA; assumption. }
       (* unknown entries: rejected (deny), ignored, or collected by the flattened map *)
-      assert (HK : forall kv : ustring * json, has_key (fst kv) props = true -> negb (mem_ustr (fst kv) (wire_names ps)) = false).
-      { intros kv Hk. apply negb_false_iff. eapply props_ok_wire; eassumption. }
+      assert (HK : forall kv : ustring * json, In kv kvs -> has_key (fst kv) props = true ->
+                                               negb (mem_ustr (fst kv) (wire_names ps)) = false).
+      { intros kv Hin Hk. apply negb_false_iff. eapply props_ok_wire; [eassumption | exact Hk | apply Hns; exact Hin]. }
       assert (HB : exists f, flat_stage_ok T (de f) ps deny kvs).
       { unfold flat_map_value in H5. unfold flat_stage_ok.
         destruct (flat_props ps) as [|fp [|fp2 r]]; [| |discriminate].
         - exists 0. destruct deny; [|reflexivity]. simpl in H5.
           destruct ap as [[[|]|]|]; try discriminate.
           assert (E : unknown_entries ps kvs = []).
-          { unfold unknown_entries. apply filter_nil. intros kv Hin. apply HK.
+          { unfold unknown_entries. apply filter_nil. intros kv Hin. apply HK; [exact Hin|].
             destruct (has_key (fst kv) props) eqn:Ek; [reflexivity|].
             assert (Hf := Ha (SBool false) eq_refl kv Hin Ek). rewrite valid_SBool in Hf. discriminate. }
           rewrite E. reflexivity.
@@ -533,13 +592,37 @@ Section Sound.
           destruct (addl_sound props ap v kvs (unknown_entries ps kvs) Hap H5 Ha Hd) as [f Hf].
           { intros kv Hin. unfold unknown_entries in Hin. apply filter_In in Hin. destruct Hin as [Hin Hm].
             split; [exact Hin|]. destruct (has_key (fst kv) props) eqn:Ekk; [|reflexivity].
-            rewrite (HK kv Ekk) in Hm. discriminate. }
+            rewrite (HK kv Hin Ekk) in Hm. discriminate. }
           exists (S (S f)). split; [eexists; eexists; reflexivity|].
           apply (map_de _ _ _ _ _ Efp Ek). intros kv Hin. apply acc_S. apply Hf. exact Hin. }
       destruct HA as [fa HA]. destruct HB as [fb HB].
-      exists (Nat.max fa fb). unfold de_struct_body. rewrite option_map_ok. apply de_struct_obj_ok. split.
+      exists (Nat.max fa fb). apply de_struct_obj_ok. split.
       - apply (de_named_mono re_match native_ok T fa); [lia | exact HA].
       - revert HB. apply flat_stage_lift. intros t j. apply acc_mono. lia.
+    Qed.
+
+    Lemma struct_sound ty fmt enum cst nv sv ik items ai mni mxi uq props req ap mnp mxp allo anyo oneo no dflt title
+          nn ps deny v :
+      Forall (fun kv => Pcov cov n (snd kv)) props -> OForall (Pcov cov n) ap ->
+      struct_case re_match native_ok T cov ty props req ap None nn ps deny = true ->
+      in_dom v = true -> (nn = true -> v <> JNull) ->
+      vx n (SObj ty fmt enum cst nv sv ik items ai mni mxi uq props req ap mnp mxp allo anyo oneo no None dflt title) v = true ->
+      exists f, de_struct_body T (de f) (dv f) ps deny v <> None.
+    Proof.
+      intros Hprops Hap Hc Hd Hnn Hv.
+      apply vx_parts in Hv.
+      destruct Hv as (Hty & _ & _ & _ & _ & _ & Hol & _ & Hobj & _ & _).
+      unfold struct_case in Hc. rewrite !andb_true_iff in Hc.
+      destruct Hc as [[[[[H1 H2] _] H3] H4] H5].
+      destruct (ty_is_sound _ _ _ _ _ H1 Hty Hnn) as [t [Ht Hok]].
+      destruct Ht as [<-|[]]. destruct v as [| | | | | |kvs]; try discriminate. clear Hok.
+      specialize (Hobj kvs eq_refl). apply valid_obj_parts in Hobj. destruct Hobj as [Hp Ha].
+      unfold valid_obj_local in Hol. rewrite !andb_true_iff in Hol. destruct Hol as [[Hreq _] _].
+      destruct (struct_obj_sound props req ap None ps deny kvs Hprops Hap H2) as [f Hf]; try assumption;
+        try (intros; reflexivity).
+      - intros k s x Hin _ Hx. eapply Hp; eassumption.
+      - intros k Hin _. apply (proj1 (forallb_forall _ _) Hreq k Hin).
+      - exists f. unfold de_struct_body. rewrite option_map_ok. exact Hf.
     Qed.
 
     (* arrays *)
@@ -867,12 +950,75 @@ Section Sound.
         destruct (v_det vr); try discriminate.
     Qed.
 
+    Lemma internal_sound tg vs deny nn b v t name dflt bes :
+      Pkids (Pcov cov n) b -> get_det T t = Some (DEnum name dflt (TagInternal tg) vs deny bes) ->
+      internal_branch_ok re_match native_ok T cov tg vs deny nn b = true ->
+      in_dom v = true -> (nn = true -> v <> JNull) -> vx n b v = true ->
+      exists f, de f t v <> None.
+    Proof.
+      intros HK Ed Hc Hd Hnn Hv.
+      destruct b as [b|ty fmt enum cst nv sv ik items ai mni mxi uq props req ap mnp mxp allo anyo oneo no ref dflt' title];
+        [discriminate|].
+      unfold internal_branch_ok in Hc.
+      destruct ref; [discriminate|]. destruct anyo; [discriminate|]. destruct oneo; [discriminate|].
+      destruct allo; [discriminate|]. destruct no; [discriminate|].
+      simpl in HK. destruct HK as (_ & HKp & HKa & _).
+      apply vx_parts in Hv. destruct Hv as (Hty & _ & _ & _ & _ & _ & Hol & _ & Hobj & _ & _).
+      rewrite !andb_true_iff in Hc. destruct Hc as [[Hc1 Hreq] Hc].
+      destruct (ty_is_sound _ _ _ _ _ Hc1 Hty Hnn) as [ity [[<-|[]] Hok]].
+      destruct v as [| | | | | |kvs]; try discriminate.
+      destruct (assoc tg props) as [stag|] eqn:Etag; [|discriminate].
+      destruct (str_enum_names stag) as [names|] eqn:Enames; [|discriminate].
+      specialize (Hobj kvs eq_refl). apply valid_obj_parts in Hobj. destruct Hobj as [Hp Ha].
+      unfold valid_obj_local in Hol. rewrite !andb_true_iff in Hol. destruct Hol as [[Hrq _] _].
+      assert (Htk : has_key tg kvs = true).
+      { apply mem_ustr_In in Hreq. apply (proj1 (forallb_forall _ _) Hrq tg Hreq). }
+      apply has_key_true in Htk. destruct Htk as [jt Ejt].
+      assert (Hjt : vx n stag jt = true) by (apply (Hp tg stag jt); [apply assoc_In; exact Etag | exact Ejt]).
+      destruct (str_enum_sound stag names jt Enames Hjt) as [s [-> Hs]].
+      apply (proj1 (forallb_forall _ _) Hc) in Hs.
+      destruct (find_variant s vs 0) as [[i vr]|] eqn:Ef; [|discriminate].
+      destruct (v_det vr) as [|t'|ts|ps] eqn:Evr; try discriminate.
+      - (* unit variant *)
+        exists 1. rewrite (de_at _ _ _ _ Ed). cbn [de_node]. unfold de_enum. rewrite Ejt, Ef, Evr.
+        destruct deny; [|discriminate]. simpl in Hs. apply andb_true_iff in Hs. destruct Hs as [Hapf Hkeys].
+        destruct ap as [[[|]|]|]; try discriminate.
+        assert (E : remove_key tg kvs = []).
+        { apply remove_key_all. intros kv Hin.
+          destruct (has_key (fst kv) props) eqn:Ek.
+          - apply has_key_true in Ek. destruct Ek as [sk Ek]. apply assoc_In in Ek.
+            apply (proj1 (forallb_forall _ _) Hkeys) in Ek. simpl in Ek. apply ustr_eqb_eq. exact Ek.
+          - assert (Hf := Ha (SBool false) eq_refl kv Hin Ek). rewrite valid_SBool in Hf. discriminate. }
+        rewrite E. discriminate.
+      - (* struct variant: the members without the tag *)
+        unfold struct_case in Hs. rewrite !andb_true_iff in Hs.
+        destruct Hs as [[[[[H1 H2] Hsw] H3] H4] H5]. apply negb_true_iff in Hsw.
+        destruct (struct_obj_sound props req ap (Some tg) ps deny (remove_key tg kvs) HKp HKa H2) as [f Hf];
+          try assumption.
+        + intros w Hw. simpl. destruct (ustr_eqb w tg) eqn:E; [|reflexivity].
+          apply ustr_eqb_eq in E. subst w. apply mem_ustr_In in Hw. congruence.
+        + apply in_dom_remove_key. exact Hd.
+        + intros k sk x Hin Hsk Hx. simpl in Hsk. rewrite assoc_remove_key in Hx.
+          * eapply Hp; eassumption.
+          * rewrite ustr_eqb_sym. exact Hsk.
+        + intros a Ea kv Hin Hk. apply In_remove_key in Hin. destruct Hin as [Hin _].
+          apply (Ha a Ea kv Hin Hk).
+        + intros k Hin Hsk. simpl in Hsk. apply has_key_true.
+          assert (Hk := proj1 (forallb_forall _ _) Hrq k Hin). apply has_key_true in Hk.
+          destruct Hk as [x Hx]. exists x. rewrite assoc_remove_key; [exact Hx|].
+          rewrite ustr_eqb_sym. exact Hsk.
+        + intros kv Hin. apply In_remove_key in Hin. destruct Hin as [_ Hne]. simpl.
+          rewrite ustr_eqb_sym. exact Hne.
+        + exists (S f). rewrite (de_at _ _ _ _ Ed). cbn [de_node]. unfold de_enum. rewrite Ejt, Ef, Evr.
+          rewrite option_map_ok. unfold de_struct_body. rewrite option_map_ok. exact Hf.
+    Qed.
+
     (* anyOf / oneOf with no other assertion beside it: Option of the non-null
        branches, an untagged enum some variant of which takes each branch, or an
        externally / adjacently tagged enum whose variants the branches spell out *)
     Lemma union_sound ty enum cst allo no nn d bs t v :
       Forall (fun b => Pcov cov n b /\ Pkids (Pcov cov n) b) bs -> get_det T t = Some d ->
-      union_ok cov ty enum cst allo no nn d bs = true ->
+      union_ok re_match native_ok T cov ty enum cst allo no nn d bs = true ->
       in_dom v = true -> (nn = true -> v <> JNull) ->
       (exists b, In b bs /\ vx n b v = true) ->
       exists f, de f t v <> None.
@@ -886,6 +1032,8 @@ Section Sound.
       - destruct tag; try discriminate.
         + (* externally tagged *)
           apply (proj1 (forallb_forall _ _) Hc) in Hin. eapply external_sound; eassumption.
+        + (* internally tagged *)
+          apply (proj1 (forallb_forall _ _) Hc) in Hin. eapply internal_sound; eassumption.
         + (* adjacently tagged *)
           apply (proj1 (forallb_forall _ _) Hc) in Hin. eapply adjacent_sound; eassumption.
         + (* untagged enum *)
